@@ -147,7 +147,7 @@ fn mb_tokens() -> Vec<String> {
 /// 4-byte character (analyzes to "ab"), and two short stems that are no indexed term.
 fn mb_prefixes() -> Vec<String> {
   let mut out = mb_tokens();
-  out.extend(["Aéb", "ab😀", "a", "aя"].iter().map(|s| s.to_string()));
+  out.extend(["Aéb", "ab😀", "a", "яb"].iter().map(|s| s.to_string()));
   out
 }
 
@@ -901,7 +901,7 @@ pub fn run(ctx: &Ctx) -> i32 {
   }
   let cov = vcore::cov! {
     "distinct_nontrivial" => acc.nontrivial.load(Ordering::Relaxed),
-    "rule" => "Family M (first): 29 document shapes = 28 tokens carrying é / я / 日 / 𠮷 (2, 2, 3, 4 UTF-8 bytes) at the start, middle or end of the stem ab, their ASCII neighbours (ab, acb, aXc, aXbc, aX) and two double insertions, + one document with an emoji between two tokens; corpora = every single shape, every pair of shapes, the whole dictionary (token i in 1 + i % 3 documents), each as one segment and one document per segment (dictionary also in 3 chunks); cases = world x 32 typed texts (every token, Aéb, ab😀, a, aя) x size {1, 2, 30 (covering)} x 9 fuzzy settings (none; max_edits {1,2} x prefix_length {0,1} x min_length {1,3}), each run twice. Family A: corpora = every multiset of 1..=N documents over 20 shapes (one token, or an unordered pair incl. a repeated token, over {ab, abc, abd, b, ba}); worlds = corpus x every ordered partition of its documents into commits (document order inside one commit not varied), no deletions; cases = world x 8 prefixes {a, ab, abc, abd, b, ba, c (non-prefix), Ab (upper-case)} x size 1..3 x 11 fuzzy settings (none; max_edits {1,2} x prefix_length {0,1} x min_length {1,3}; max_edits {1,2} with max_expansions 6), each case run twice. Family C: k = 24..=34 copies of the document \"ab abc\" committed one per segment vs. as one segment, family A requests (2k (segment, term) pairs cross the default fuzzy cap 50 at k = 26 and the prefix scan cap 64 at k = 33 while only 2 terms match). A case is non-trivial when it returns at least one option and the admissible terms are a non-empty proper subset of the indexed terms.",
+    "rule" => "Family M (first): 29 document shapes = 28 tokens carrying é / я / 日 / 𠮷 (2, 2, 3, 4 UTF-8 bytes) at the start, middle or end of the stem ab, their ASCII neighbours (ab, acb, aXc, aXbc, aX) and two double insertions, + one document with an emoji between two tokens; corpora = every single shape, every pair of shapes, the whole dictionary (token i in 1 + i % 3 documents), each as one segment and one document per segment (dictionary also in 3 chunks); cases = world x 32 typed texts (every token, Aéb, ab😀, a, яb) x size {1, 2, 30 (covering)} x 9 fuzzy settings (none; max_edits {1,2} x prefix_length {0,1} x min_length {1,3}), each run twice. Family A: corpora = every multiset of 1..=N documents over 20 shapes (one token, or an unordered pair incl. a repeated token, over {ab, abc, abd, b, ba}); worlds = corpus x every ordered partition of its documents into commits (document order inside one commit not varied), no deletions; cases = world x 8 prefixes {a, ab, abc, abd, b, ba, c (non-prefix), Ab (upper-case)} x size 1..3 x 11 fuzzy settings (none; max_edits {1,2} x prefix_length {0,1} x min_length {1,3}; max_edits {1,2} with max_expansions 6), each case run twice. Family C: k = 24..=34 copies of the document \"ab abc\" committed one per segment vs. as one segment, family A requests (2k (segment, term) pairs cross the default fuzzy cap 50 at k = 26 and the prefix scan cap 64 at k = 33 while only 2 terms match). A case is non-trivial when it returns at least one option and the admissible terms are a non-empty proper subset of the indexed terms.",
     "family_m" => json!({
       "corpora": m_jobs.len(), "worlds": m_worlds, "requests_per_world": fams[0].specs.len(), "cases": m_cases, "nontrivial_cases": m_nontrivial,
       "cases_requiring_a_term_whose_byte_length_differs_by_more_than_max_edits": m_byte_vs_char,
